@@ -153,6 +153,8 @@ type subRootObj struct {
 	mu      sync.Mutex
 	log     *subLog
 	pending *hSub // configuration of the next subscriber (set by the driver before each subscribe request)
+	// pendingBy: for a request that opens several streams, the subscriber prepared for each root field (by response key)
+	pendingBy map[string]*hSub
 	created []*hSub
 }
 
@@ -182,7 +184,12 @@ func (s *subSubscriptions) Resolve(field *ggql.Field, args map[string]interface{
 	}
 	s.r.mu.Lock()
 	h := s.r.pending
-	s.r.pending = nil
+	if by := s.r.pendingBy[field.Alias]; by != nil && field.Alias != "" {
+		h = by
+		delete(s.r.pendingBy, field.Alias)
+	} else {
+		s.r.pending = nil
+	}
 	if h != nil {
 		s.r.created = append(s.r.created, h)
 	}
@@ -296,6 +303,43 @@ func runC19(c *run.Ctx) {
 		seenDeliveries := 0
 		for st := 0; st < steps && !bad; st++ {
 			switch k := r.Intn(10); {
+			case k < 3 && len(entries) > 0 && r.Intn(5) == 0: // one request that opens TWO streams (two root fields, the second maybe through a fragment)
+				// ggql registers the subscriptions of one request in no particular order: the two listen to different topics,
+				// so no publish reaches both and the delivery order between them never matters
+				tp := r.Perm(3)
+				hs := []*hSub{}
+				var roots []model.Sel
+				for j := 0; j < 2; j++ {
+					h := &hSub{sid: len(entries) + j, log: lg, failOn: map[int]bool{}, sels: subSelection(r), current: &current, field: []string{"listen", "must", "batch", "many"}[r.Intn(4)]}
+					hs = append(hs, h)
+					roots = append(roots, &model.Field{Alias: fmt.Sprintf("s%d", j+1), Name: h.field, Args: []model.Arg{{Name: "topic", Value: topics[tp[j]]}}, Sels: h.sels})
+					c.Bucket("subscription_field", h.field)
+				}
+				d := &model.Doc{}
+				if r.Intn(2) == 0 {
+					d.Frags = []*model.FragDef{{Name: "Second", Cond: "Subscription", Sels: []model.Sel{roots[1]}}}
+					roots[1] = &model.Spread{Name: "Second"}
+				}
+				d.Ops = []*model.Op{{Kind: "subscription", Name: "S", Sels: roots}}
+				text := d.Print(model.LayoutN(0))
+				ro.mu.Lock()
+				ro.pendingBy = map[string]*hSub{"s1": hs[0], "s2": hs[1]}
+				ro.mu.Unlock()
+				hist = append(hist, fmt.Sprintf("subscribe#%d+#%d (one request, two streams) %s", hs[0].sid, hs[1].sid, strings.TrimSpace(text)))
+				var res map[string]interface{}
+				pv, _ := run.Protect(func() { res = root.ResolveString(text, "", nil) })
+				if pv != nil {
+					fail(fmt.Sprintf("subscribe panics: %v", pv))
+					bad = true
+					break
+				}
+				if es, has := res["errors"]; has {
+					fail(fmt.Sprintf("subscription request rejected: %v", es))
+					bad = true
+					break
+				}
+				entries = append(entries, &subModelEntry{h: hs[0], live: true}, &subModelEntry{h: hs[1], live: true})
+				c.Count("requests_opening_two_streams", 1)
 			case k < 3 || len(entries) == 0: // subscribe
 				h := &hSub{sid: len(entries), log: lg, failOn: map[int]bool{}, sels: subSelection(r), current: &current, field: "listen"}
 				if r.Intn(3) == 0 {
